@@ -106,6 +106,6 @@ async def _get_and_save(func, args, kwargs, backend: Cache, key: Key, ttl, store
             backend.delete(key + ":counter"),
             backend.set(key, to_cache[0], expire=ttl, tags=tags),
         )
-    if _exc:
+    if _exc is not None:
         raise _exc
     return result
